@@ -33,7 +33,7 @@ func c14(c *core.Check) {
 	c14Links(c)
 	c14Metadata(c)
 	c14Fonts(c)
-	r6 := c.Rule("R6", "no call passes two same-typed arguments under each other's parameter names (swapped arguments): every pair of arguments named after the callee's parameters is aligned with them", 80)
+	r6 := c.Rule("R6", "no call passes two same-typed arguments under each other's parameter names (swapped arguments): every pair of arguments named after the callee's parameters is aligned with them", 50)
 	argNameRule(c, r6, "html/document", map[string]bool{"document.go": true, "draw.go": true}, 45)
 	argNameRule(c, r6, "images", nil, 20)
 	argNameRule(c, r6, "text/draw", nil, 15)
